@@ -284,10 +284,25 @@ func Convert(value any, typ reflect.Type) (any, error) { //nolint: gocyclo
 			return value.String(), nil
 		default:
 			// a container spelled as text shows the values of nested Drops and pointers
-			return fmt.Sprint(DeepToLiquid(value)), nil
+			return Sprint(DeepToLiquid(value)), nil
 		}
 	}
 	return nil, conversionError("", value, typ)
+}
+
+// Sprint spells a value as text the way fmt.Sprint does, except that a floating-point number
+// whose value is whole is written out as that number: 1234567, where fmt writes 1.234567e+06.
+func Sprint(value any) string {
+	switch rv := reflect.ValueOf(value); rv.Kind() {
+	case reflect.Float32, reflect.Float64:
+		if _, ok := value.(fmt.Stringer); ok {
+			break
+		}
+		if f := rv.Float(); f == math.Trunc(f) && math.Abs(f) < 1e21 {
+			return strconv.FormatFloat(f, 'f', -1, rv.Type().Bits())
+		}
+	}
+	return fmt.Sprint(value)
 }
 
 // MustConvert is like Convert, but panics if conversion fails.
